@@ -109,48 +109,100 @@ def r4_no_seed_selected(ctx, res):
         raise AnalysisError('similarity functions not found by the ONT analysis')
 
 
+_ABBR = {
+    'IC1': 'information_content(synset1, ic)',
+    'IC2': 'information_content(synset2, ic)',
+    'ICL': 'information_content(_most_informative_lcs(synset1, synset2, ic), ic)',
+    'LCS0': '_least_common_subsumers(synset1, synset2, simulate_root)[0]',
+    'DIST': 'len(synset1.shortest_path(synset2, simulate_root=simulate_root))',
+}
+
+
+def _x(t):
+    for k, v in _ABBR.items():
+        t = t.replace(k, v)
+    return t
+
+
+# documented formulas as outcome tables (wnstatic.inline): (kind, guards, value) with every local inlined, so the table
+# is insensitive to introducing / removing / renaming locals and to the order of independent statements
+FORMULAS = {
+    'path': [('return', (), '1 / (DIST + 1)'),
+             ('return', ('<wn.Error raised in: path = synset1.shortest_path(synset2, simulate_root=simulate_root)>',), "1 / (float('inf') + 1)")],
+    'wup': [('return', (), '2 * (LCS0.max_depth() + 1) / (len(synset1.shortest_path(LCS0, simulate_root=simulate_root)) + '
+                           'len(synset2.shortest_path(LCS0, simulate_root=simulate_root)) + 2 * (LCS0.max_depth() + 1))')],
+    'lch': [('raise', ('max_depth <= 0',), "wn.Error('max_depth must be greater than 0')"),
+            ('return', ('not (max_depth <= 0)',), '-math.log((DIST + 1) / (2 * max_depth))')],
+    'res': [('return', (), 'ICL')],
+    'jcn': [('return', ('IC1 == IC2 == ICL == 0',), '0'),
+            ('return', ('not (IC1 == IC2 == ICL == 0)', 'IC1 + IC2 == 2 * ICL'), "float('inf')"),
+            ('return', ('not (IC1 == IC2 == ICL == 0)', 'not (IC1 + IC2 == 2 * ICL)'), '1 / (IC1 + IC2 - 2 * ICL)')],
+    'lin': [('return', ('IC1 == 0 or IC2 == 0',), '0.0'),
+            ('return', ('not (IC1 == 0 or IC2 == 0)',), '2 * ICL / (IC1 + IC2)')],
+    '_most_informative_lcs': [('return', (), 'max(_least_common_subsumers(synset1, synset2, False), key=lambda ss: ic[synset1.pos][ss.id])')],
+}
+DOC = {
+    'path': '1 / (shortest path length + 1), infinite distance when no path connects the synsets',
+    'wup': '2k / (i + j + 2k) with k = depth(lcs) + 1',
+    'lch': '-log((distance + 1) / (2 * max_depth)), wn.Error for max_depth <= 0',
+    'res': 'IC(lcs)',
+    'jcn': '1 / (IC1 + IC2 - 2 IC(lcs)) with 0 when all are 0 and inf when the denominator is 0',
+    'lin': '2 IC(lcs) / (IC1 + IC2), 0 when IC1 or IC2 is 0',
+    '_most_informative_lcs': 'the common subsumer with the greatest IC weight',
+}
+
+
 def r5_anchors(ctx, res):
-    def F(name):
-        return ctx.repo.func('similarity', name)
+    from ..inline import outcomes, Opaque
+    for m, want in FORMULAS.items():
+        f = ctx.repo.func('similarity', m)
+        key = f'formula:{m}'
+        try:
+            got = {o.as_key() for o in outcomes(f.node) if o.kind != 'fall'}
+        except Opaque as exc:
+            res.inst(key, f.module.loc(f.node), 'opaque')
+            res.find(key, f.module.loc(f.node), f'similarity.{m} is no longer a loop-free formula ({exc}); documented: {DOC[m]}')
+            continue
+        exp = {(k, frozenset(_x(g) for g in gs), _x(v)) for k, gs, v in want}
+        res.inst(key, f.module.loc(f.node), f'{len(got)} outcomes')
+        if got != exp:
+            extra = sorted(f'{k} {v} when {sorted(g) or "always"}' for k, g, v in got - exp)
+            missing = sorted(f'{k} {v} when {sorted(g) or "always"}' for k, g, v in exp - got)
+            res.find(key, f.module.loc(f.node), f'similarity.{m}: outcome table differs from the documented formula ({DOC[m]}); '
+                                                f'unexpected: {extra[:2]}; missing: {missing[:2]}')
 
-    def rets(f):
-        rs = [r for r in walk_no_nested(f.node) if isinstance(r, ast.Return) and r.value is not None]
-        return [Frag(r.value) for r in sorted(rs, key=lambda r: r.lineno)]
 
-    def chk(key, f, ok, msg):
-        res.inst(key, f.module.loc(f.node), 'anchor')
-        if not ok:
-            res.find(key, f.module.loc(f.node), msg)
-    f = F('path')
-    s = Frag(f.node)
-    chk('formula:path', f, rets(f) == ['1 / (distance + 1)'] and 'distance = len(path)' in s
-        and 'synset1.shortest_path(synset2, simulate_root=simulate_root)' in s,
-        f'path() returns {rets(f)}; documented: 1 / (shortest path length + 1)')
-    f = F('wup')
-    s = Frag(f.node)
-    chk('formula:wup', f, rets(f) == ['2 * k / (i + j + 2 * k)'] and 'k = lcs.max_depth() + 1' in s
-        and 'i = len(synset1.shortest_path(lcs, simulate_root=simulate_root))' in s
-        and 'j = len(synset2.shortest_path(lcs, simulate_root=simulate_root))' in s,
-        f'wup() returns {rets(f)}; documented: 2k / (i + j + 2k) with k = depth(lcs) + 1')
-    f = F('lch')
-    s = Frag(f.node)
-    chk('formula:lch', f, rets(f) == ['-math.log((distance + 1) / (2 * max_depth))']
-        and 'distance = len(synset1.shortest_path(synset2, simulate_root=simulate_root))' in s and 'if max_depth <= 0' in s,
-        f'lch() returns {rets(f)}; documented: -log((distance + 1) / (2 * max_depth)), error for max_depth <= 0')
-    f = F('res')
-    chk('formula:res', f, rets(f) == ['information_content(lcs, ic)'], f'res() returns {rets(f)}; documented: IC(lcs)')
-    f = F('jcn')
-    s = Frag(f.node)
-    chk('formula:jcn', f, rets(f) == ['0', "float('inf')", '1 / (ic1 + ic2 - 2 * ic_lcs)'] and 'if ic1 == ic2 == ic_lcs == 0' in s
-        and 'elif ic1 + ic2 == 2 * ic_lcs' in s, f'jcn() returns {rets(f)}; documented: 1 / (IC1 + IC2 - 2 IC(lcs)) with the two special cases')
-    f = F('lin')
-    s = Frag(f.node)
-    chk('formula:lin', f, rets(f) == ['0.0', '2 * information_content(lcs, ic) / (ic1 + ic2)'] and 'if ic1 == 0 or ic2 == 0' in s,
-        f'lin() returns {rets(f)}; documented: 2 IC(lcs) / (IC1 + IC2)')
-    f = F('_most_informative_lcs')
-    s = Frag(f.node)
-    chk('formula:most-informative', f, 'max(lcs, key=lambda ss: pos_ic[ss.id])' in s and 'pos_ic = ic[synset1.pos]' in s,
-        '_most_informative_lcs no longer selects the subsumer with the greatest IC weight... (see source)')
+# calls that raise the documented wn.Error; each must have been evaluated on every path that returns a value
+RAISERS = {
+    'path': ['_check_if_pos_compatible(synset1.pos, synset2.pos)'],
+    'wup': ['_check_if_pos_compatible(synset1.pos, synset2.pos)', '_least_common_subsumers(synset1, synset2, simulate_root)'],
+    'lch': ['_check_if_pos_compatible(synset1.pos, synset2.pos)', 'synset1.shortest_path(synset2, simulate_root=simulate_root)'],
+    'res': ['_check_if_pos_compatible(synset1.pos, synset2.pos)', '_most_informative_lcs(synset1, synset2, ic)'],
+    'jcn': ['_check_if_pos_compatible(synset1.pos, synset2.pos)', '_most_informative_lcs(synset1, synset2, ic)'],
+    'lin': ['_check_if_pos_compatible(synset1.pos, synset2.pos)', '_most_informative_lcs(synset1, synset2, ic)'],
+}
+
+
+def r6_errors_before_values(ctx, res):
+    """a metric raises wn.Error for incompatible / unconnected synsets whatever the other values are: the raising calls are
+    evaluated on every path that returns a value (a special-case return placed before them turns the error into a score)."""
+    from ..inline import outcomes, Opaque
+    for m, need in RAISERS.items():
+        f = ctx.repo.func('similarity', m)
+        try:
+            outs = [o for o in outcomes(f.node) if o.kind == 'return']
+        except Opaque:
+            continue   # reported by R5
+        for r in need:
+            key = f'raises-before-return:{m}:{r.split("(")[0]}'
+            res.inst(key, f.module.loc(f.node), f'{len(outs)} returning paths')
+            for o in outs:
+                if r not in o.before:
+                    res.find(key, f.module.loc(o.node),
+                             f'similarity.{m} can return `{o.value[:50]}` (when {" and ".join(o.guards)[:120] or "always"}) without having '
+                             f'evaluated `{r}`: for synsets without a common hypernym / of incompatible parts of speech a value is '
+                             f'returned instead of the documented wn.Error')
+                    break
 
 
 RULES = [
@@ -159,4 +211,5 @@ RULES = [
     ('C14-R3', r3_forwarding, 5),
     ('C14-R4', r4_no_seed_selected, 8),
     ('C14-R5', r5_anchors, 7),
+    ('C14-R6', r6_errors_before_values, 11),
 ]
